@@ -88,8 +88,9 @@ func firstDiff(a, b []string) string {
 
 func c14Weights() Weights {
 	w := DefaultWeights()
-	w.CreateFixed, w.CreateBatch = 6, 12
-	w.AddAllowed, w.PlaceBid, w.ModifyBid, w.Block = 14, 40, 6, 14
+	w.CreateFixed, w.CreateBatch = 10, 12
+	w.AddAllowed, w.PlaceBid, w.ModifyBid, w.Block = 24, 50, 6, 6
+	w.UpdateAllowed, w.Donate, w.Cancel = 2, 2, 1
 	w.PerturbPct, w.PoorPct = 3, 0
 	w.MaxAuctions = 3
 	return w
@@ -104,7 +105,7 @@ func RunC14(t *testing.T) {
 	body := func(rt *rapid.T, ops []Op) {
 		var labels map[string]int
 		if rt != nil {
-			h, g := genLogK(rt, c14Weights(), 15, 60, 95)
+			h, g := genLogK(rt, c14Weights(), 25, 80, 95)
 			ops = h.OpsLog()
 			labels = map[string]int{}
 			for k, v := range g.Labels {
@@ -124,6 +125,22 @@ func RunC14(t *testing.T) {
 				for _, tr := range st.Trans {
 					if tr.Settled {
 						settled++
+						bidders := map[string]bool{}
+						for _, b := range st.Pre.BidsOf(tr.ID) {
+							bidders[b.Bidder] = true
+						}
+						if !tr.Pre.IsBatch() {
+							labels[fmt.Sprintf("c14:fixed-settlement-bidders=%d", minInt(len(bidders), 3))]++
+						} else {
+							labels[fmt.Sprintf("c14:batch-settlement-bidders=%d", minInt(len(bidders), 3))]++
+						}
+						if len(bidders) >= 2 {
+							if tr.Pre.IsBatch() {
+								labels["c14:batch-settlement-with->=2-bidders"]++
+							} else {
+								labels["c14:fixed-settlement-with->=2-bidders"]++
+							}
+						}
 					}
 				}
 				if n >= 3 {
